@@ -498,7 +498,7 @@ def run_large(ctx: Ctx):
     """(19) batches around internal block sizes: 2^k, 2^k+-1 elements; oracle = split consistency (the batch result must be
     the concatenation of the results on two pieces) and the single-item call on first / last / a middle item"""
     P = U.pp()
-    sizes = [2 ** 14 - 1, 2 ** 14, 2 ** 14 + 1, 2 ** 15 + 1, 2 ** 16 + 1] if ctx.quick else [2 ** k + d for k in (12, 13, 14, 15, 16, 17) for d in (-1, 0, 1)]
+    sizes = [2 ** 14, 2 ** 14 + 1, 2 ** 16 + 1, 2 ** 18 + 37] if ctx.quick else [2 ** k + d for k in (12, 14, 16, 17, 18) for d in (-1, 0, 1)] + [2 ** 18 + 37, 2 ** 20 + 1]
     for name in U.GROUPS:
         for D in (torch.float64, torch.float32):
             for n in sizes:
@@ -525,6 +525,54 @@ def run_large(ctx: Ctx):
                         ctx.fail(case | {"op": nm}, f"raises: {nm} on a batch of {n} raised {type(e).__name__}: {str(e)[:100]}")
                 ctx.note_case(("large", name, str(D), n), True)
                 ctx.count("large")
+
+
+def run_interleave(ctx: Ctx):
+    """(32) module-level constants written in place by ANOTHER operation: the same calls before and after a history of
+    every other public operation (forward and backward, SINGLE-ITEM and batched, every type, both dtypes) must agree bit
+    for bit (a cached identity handed out without a copy for single items poisons matrix()/Act for the whole process)"""
+    P = U.pp()
+
+    def reads():
+        out = []
+        for name in U.GROUPS:
+            for D in (torch.float64, torch.float32):
+                for n in (1, 3):
+                    X, Y = _rand_batch(name, n, D, 50 + n), _rand_batch(name, n, D, 60 + n)
+                    p3, p4 = torch.ones(n, 3, dtype=D) * 0.5, torch.tensor([[0.5, -1.0, 2.0, 1.0]] * n, dtype=D)
+                    out += [(X @ Y).tensor(), X.Inv().tensor(), X.Act(p3), X.Act(p4), X.matrix(), X.rotation().tensor(),
+                            (X + Y.Log().tensor()).tensor(), P.identity_like(X, dtype=D).tensor(), X[0].matrix(), X[0].Act(p3[0])]
+        return [o.detach().clone() for o in out]
+
+    first = reads()
+    # the history of "other" operations, single items first (the degenerate shapes), with backward passes
+    for name in U.GROUPS:
+        for D in (torch.float64, torch.float32):
+            for n in (1, 2):
+                shapes = [(), (1,), (1, 1)] if n == 1 else [(2,)]
+                for shp in shapes:
+                    try:
+                        X = _rand_batch(name, max(1, n), D, 70 + n)
+                        X = X[0] if shp == () else (X.reshape(shp + (X.shape[-1],)) if n == 1 else X)
+                        X = P.LieTensor(X.tensor().clone().requires_grad_(True), ltype=X.ltype)
+                        a = X.Log()
+                        p3 = torch.ones(X.shape[:-1] + (3,), dtype=D)
+                        p4 = torch.ones(X.shape[:-1] + (4,), dtype=D)
+                        terms = [X.Adj(a).tensor().sum(), X.AdjT(a).tensor().sum(), X.Act(p3).sum(), X.Act(p4).sum(),
+                                 (X @ X).tensor().sum(), X.Inv().tensor().sum(), X.matrix().sum(), a.Exp().tensor().sum(),
+                                 X.Jinvp(a).tensor().sum(), a.matrix().sum() if hasattr(a, "matrix") else a.tensor().sum()]
+                        sum(terms).backward()
+                    except Exception as e:   # an operation that is not defined for this type / shape is not our subject here
+                        ctx.count(f"interleave.skip.{type(e).__name__}")
+    second = reads()
+    bad = [i for i, (a, b) in enumerate(zip(first, second)) if a.shape != b.shape or not torch.equal(a, b)]
+    ctx.note_case(("interleave",), True)
+    ctx.count("interleave")
+    if bad:
+        ctx.fail({"stream": "interleave", "first_differing_read": bad[0], "reads_per_block": 10},
+                 f"interleave: {len(bad)} of {len(first)} reads (Mul/Inv/Act/Act4/matrix/rotation/Retr/identity_like, batched and single item) "
+                 f"changed after a history of other operations on single items and small batches with backward passes "
+                 f"(first differing read #{bad[0]}: type {U.GROUPS[bad[0] // 40]}, max diff {float((first[bad[0]].double() - second[bad[0]].double()).abs().max()) if first[bad[0]].shape == second[bad[0]].shape else 'shape'})")
 
 
 def run_ties(ctx: Ctx):
@@ -893,6 +941,7 @@ def run(ctx: Ctx):
     run_retr_ladder(ctx)
     run_ties(ctx)
     run_default_dtype(ctx)
+    run_interleave(ctx)
     run_large(ctx)
     run_ops(ctx, ctx.pick(260, 3000))
     run_laws(ctx, ctx.pick(300, 4000))
